@@ -10,10 +10,12 @@ model is evaluated on the exact rational value of the doubles and cases whose an
 Oracle: the statement of C03 re-computed with fractions.Fraction on the implementation's answers.
 """
 from fractions import Fraction
+import json
 import math
+import os
 
 from common import zlit, blit, llit, olit
-from gridlib import GridCase, frac, near_integer
+from gridlib import GridCase, frac, near_integer, is_exact_float_grid
 
 ID = 'C03'
 TECHNIQUE = 'Coq proof over an exact-arithmetic grid model + correspondence of the model with TileGrid (exact and realistic streams)'
@@ -32,6 +34,8 @@ TRUSTED = ['model Grid.v hand-written from mapproxy/grid.py; tie = differential 
 ASSUMPTIONS = ['resolutions positive and strictly decreasing, bbox non-degenerate, tile size positive',
                'numerically meaningful range: resolution >= 1e-9 of the coordinate magnitude']
 EXPLANATION = 'grid arithmetic proved over Z for all grids; implementation compared on exact and realistic streams'
+GEN = ['Gen_grid_int.v']
+CORPUS = os.path.join(os.path.dirname(os.path.dirname(os.path.dirname(os.path.abspath(__file__)))), 'corpus', 'C03')
 
 
 # ----------------------------------------------------------------------------- grids
@@ -74,6 +78,9 @@ def make_grids(ctx):
                         rng.randrange(1, 2000), span_x * rng.randrange(1, 4) - 1, 5 * span_x + 1])
         h = rng.choice([span_y, span_y * 2, span_y * 3 + rng.randrange(1, 50), span_y + res[-1] * rng.randrange(1, 3 * th),
                         rng.randrange(1, 2000), span_y * rng.randrange(1, 4) - 1, 5 * span_y + 1])
+        if mode == 'pyramid' and rng.random() < 0.5:
+            # every level aligned with the bbox: the other origin is offered
+            h = span_y * rng.randrange(1, 4)
         bbox = (float(x0), float(y0), float(x0 + w), float(y0 + h))
         sf = rng.choice([1.0, 1.125, 1.25, 1.5, 2.0, 1.15])
         shr = rng.choice([4.0, 2.0, 1.5, 4.0])
@@ -116,15 +123,30 @@ def call(f, *a):
         return ('raised', type(e).__name__)
 
 
-def edge_values(gc, rng, level, axis):
-    """coordinates on, next to and away from tile edges of `level` along axis 0/1 (doubles scalable at gc.S)."""
-    g = gc.grid
+def gparams(g):
+    """JSON-able description of a TileGrid, sufficient to rebuild it (the schema of corpus/C03/*.json)."""
+    return {'bbox': list(g.bbox), 'res': [float(r) for r in g.resolutions], 'tile_size': list(g.tile_size),
+            'origin': g.origin, 'stretch_factor': g.stretch_factor, 'max_shrink_factor': g.max_shrink_factor}
+
+
+def grid_from_params(p):
+    from mapproxy.grid import TileGrid
+    from mapproxy.srs import SRS
+    return TileGrid(SRS(3857), bbox=tuple(p['bbox']), tile_size=tuple(p['tile_size']), res=list(p['res']),
+                    origin=p.get('origin', 'll'), stretch_factor=p.get('stretch_factor', 1.15),
+                    max_shrink_factor=p.get('max_shrink_factor', 4.0))
+
+
+def edge_values(gc, rng, level, axis, ulp=False):
+    """coordinates on, next to and away from tile edges of `level` along axis 0/1 (doubles scalable at gc.S);
+    with ulp=True additionally the doubles directly below / above tile edges (not scalable: oracle only)."""
     r = float(gc.res[level])
     span = r * (gc.tw if axis == 0 else gc.th)
     lo, hi = float(gc.bbox[axis]), float(gc.bbox[axis + 2])
     nx, ny = gc.grid_size(level)
     n = nx if axis == 0 else ny
     out = []
+    ulps = []
     for _ in range(3):
         i = rng.choice([0, 1, n - 1, n, n + 1, -1, rng.randrange(0, n + 1)])
         if axis == 1 and gc.ul:
@@ -132,8 +154,10 @@ def edge_values(gc, rng, level, axis):
         else:
             e = lo + i * span
         for off in (0.0, r / 10.0, -r / 10.0, r / 8.0, -r / 8.0, r / 10.0 + 0.125, r / 10.0 - 0.125, 0.125, -0.125,
-                    r / 2.0, span / 2.0, r, -r):
+                    r / 2.0, span / 2.0, r, -r, r / 9.0, -r / 9.0):
             out.append(e + off)
+        ulps += [math.nextafter(e, math.inf), math.nextafter(e, -math.inf),
+                 math.nextafter(e + r / 10.0, math.inf), math.nextafter(e - r / 10.0, -math.inf)]
     out.append(lo + rng.random() * (hi - lo))
     out.append(lo - rng.random() * (hi - lo))
     out.append(hi + rng.random() * (hi - lo) / 2)
@@ -145,6 +169,8 @@ def edge_values(gc, rng, level, axis):
             v = math.floor(v * 2 ** 20) / 2.0 ** 20
         if gc.can_scale(v):
             res.append(v)
+    if ulp:
+        res += ulps
     return res
 
 
@@ -159,224 +185,454 @@ def coord_lit(c):
     return '(%s, %s, %s)' % (zlit(c[0]), zlit(c[1]), zlit(c[2]))
 
 
+def ftol(f):
+    """tolerance (in tile units) within which float rounding of grid.py may decide either way"""
+    return Fraction(1, 10 ** 9) * max(1, abs(f))
+
+
+class Run(object):
+    def __init__(self, ctx):
+        self.ctx = ctx
+        self.T = {name: ([], []) for name in ('tile', 'tile_bbox', 'sizes', 'flip', 'limit', 'origin', 'affected', 'closest',
+                                              'afflevel', 'gen_flip', 'gen_limit', 'gen_list')}
+        self.skipped = 0
+        self.tolerance_oracle = 0
+
+    def add(self, name, term, desc):
+        self.T[name][0].append(term)
+        self.T[name][1].append(desc)
+
+
+# ----------------------------------------------------------------------------- single queries
+
+def check_tile(R, gc, px, py, l):
+    ctx, g = R.ctx, gc.grid
+    exact = gc.kind == 'exact'
+    st, t = call(g.tile, px, py, l)
+    fx, fy = gc.tile_pos(px, py, l)
+    near = near_integer(fx) or near_integer(fy)
+    scal = gc.can_scale(px, py)
+    rep = {'grid': gparams(g), 'query': {'fn': 'tile', 'point': [px, py], 'level': l}, 'result': t}
+    ctx.case(('tile', gc.name, px, py, l), True,
+             {'fn': 'tile', 'grid': repr(g), 'point': (px, py), 'level': l, 'result': t})
+    ctx.count('tile:' + ('on_edge' if (fx.denominator == 1 or fy.denominator == 1) else 'near_edge' if near else 'away'))
+    if st != 'ok':
+        ctx.fail('tile-raises', 'tile() raised %r' % (t,), rep)
+        return
+    if t[2] != l:
+        ctx.fail('point-not-in-own-tile', 'tile(%r, %r, %d) = %r has another level' % (px, py, l, t), rep)
+        return
+    if not scal or (not exact and near):
+        # float rounding may decide either way (query within 1e-9 tile units of an edge, e.g. +-1 ulp): the tile must
+        # contain the point up to that tolerance
+        R.skipped += 1
+        R.tolerance_oracle += 1
+        ctx.count('tile:tolerance_oracle')
+        if not (t[0] - ftol(fx) <= fx < t[0] + 1 + ftol(fx) and t[1] - ftol(fy) <= fy < t[1] + 1 + ftol(fy)):
+            ctx.fail('point-not-in-own-tile', 'tile(%r, %r, %d) = %r does not contain the point' % (px, py, l, t), rep)
+        return
+    R.add('tile', '(%s, %s, %s, %s, (%s, %s))' % (gc.name, zlit(gc.z(px)), zlit(gc.z(py)), zlit(l), zlit(t[0]), zlit(t[1])),
+          {'grid': repr(g), 'bbox': g.bbox, 'res': float(gc.res[l]), 'point': (px, py), 'level': l, 'tile': t})
+    # oracle: the tile found for a point contains that point (half-open)
+    if not (t[0] <= fx < t[0] + 1 and t[1] <= fy < t[1] + 1):
+        ctx.fail('point-not-in-own-tile', 'tile(%r, %r, %d) = %r does not contain the point' % (px, py, l, t), rep)
+        return
+    # oracle: the rectangle reported for that tile contains the point (ties tile() to tile_bbox())
+    st, bb = call(lambda: g.tile_bbox(t))
+    if st == 'ok':
+        eps = 0 if exact else Fraction(1, 10 ** 9) * (max(abs(frac(v)) for v in bb) + gc.res[l] * gc.tw)
+        if not (frac(bb[0]) - eps <= frac(px) <= frac(bb[2]) + eps and frac(bb[1]) - eps <= frac(py) <= frac(bb[3]) + eps):
+            ctx.fail('point-not-in-tile-bbox', 'tile_bbox(tile(%r, %r, %d)) = %r does not contain the point' % (px, py, l, bb), rep)
+
+
+def block_for(gc, l, cx0, cy0, cx1, cy1):
+    """expected tile list for the corner tiles (cx0, cy0) (lower left) and (cx1, cy1) (upper right): rows from the top"""
+    nx, ny = gc.grid_size(l)
+    rows = list(range(cy1, cy0 - 1, -1)) if not gc.ul else list(range(cy1, cy0 + 1))
+    cols = list(range(cx0, cx1 + 1))
+    return cols, rows, [((x, y, l) if (0 <= x < nx and 0 <= y < ny) else None) for y in rows for x in cols]
+
+
+def check_affected(R, gc, bb, l, kind='corpus'):
+    ctx, g = R.ctx, gc.grid
+    exact = gc.kind == 'exact'
+    r = gc.res[l]
+    st, res = call(g.get_affected_level_tiles, bb, l)
+    delta = r / 10
+    pos = [gc.tile_pos(frac(bb[0]) + delta, frac(bb[1]) + delta, l), gc.tile_pos(frac(bb[2]) - delta, frac(bb[3]) - delta, l)]
+    near = any(near_integer(p) for pp in pos for p in pp)
+    scal = gc.can_scale(*bb)
+    rep = {'grid': gparams(g), 'query': {'fn': 'affected', 'bbox': list(bb), 'level': l}}
+    ctx.case(('affected', gc.name, bb, l), True,
+             {'fn': 'get_affected_level_tiles', 'grid': repr(g), 'bbox': bb, 'level': l,
+              'result': (res[0], res[1], list(res[2])[:6]) if st == 'ok' else st} if len(ctx.samples) < 5 else None)
+    ctx.count('affected:' + kind)
+    if st == 'ok':
+        abbox, (gx, gy), tiles = res
+        tiles = [tuple(t) if t is not None else None for t in tiles]
+        rep['result'] = {'bbox': list(abbox), 'grid': [gx, gy], 'tiles': tiles[:40]}
+    elif st != 'griderror':
+        ctx.fail('affected-raises', 'get_affected_level_tiles raised %r' % (res,), rep)
+        return
+    if not scal or (not exact and near) or (exact and st == 'ok' and not gc.can_scale(*abbox)):
+        # rounding-sensitive: the answer must be the exact answer for some perturbation of the four inset corner
+        # positions by at most 1e-9 tile units
+        R.skipped += 1
+        R.tolerance_oracle += 1
+        ctx.count('affected:tolerance_oracle')
+        cands = [sorted({math.floor(p - ftol(p)), math.floor(p + ftol(p))}) for p in (pos[0][0], pos[0][1], pos[1][0], pos[1][1])]
+        ok = False
+        for cx0 in cands[0]:
+            for cy0 in cands[1]:
+                for cx1 in cands[2]:
+                    for cy1 in cands[3]:
+                        cols, rows, exp = block_for(gc, l, cx0, cy0, cx1, cy1)
+                        if not cols or not rows:
+                            ok = ok or st == 'griderror'
+                        elif st == 'ok' and exp == tiles and (gx, gy) == (len(cols), len(rows)):
+                            ok = True
+        if not ok:
+            ctx.fail('affected-tiles', 'tiles for rectangle differ from the exact cover (row-major from the top, valid tiles '
+                     'only) for every rounding of the corner positions', rep)
+        return
+    if st == 'ok':
+        if exact:
+            zb, tol = gc.zbbox(abbox), 0
+        else:
+            zs = [int(frac(v) * gc.S) for v in abbox]
+            zb = '(%s, %s, %s, %s)' % tuple(zlit(v) for v in zs)
+            tol = int(frac(max(abs(v) for v in abbox) + float(r) * gc.tw) * gc.S / 10 ** 9) + 1
+        obs_t = '(Affected %s %d %d %s)' % (zb, gx, gy, llit(tiles, lambda c: olit(c, coord_lit)))
+        R.add('affected', '(%s, %s, %s, %d, %s)' % (gc.name, gc.zbbox(bb), zlit(l), tol, obs_t),
+              {'grid': repr(g), 'bbox': bb, 'level': l, 'affected_bbox': abbox, 'grid_size': (gx, gy), 'tiles': tiles})
+        affected_oracle(ctx, gc, bb, l, abbox, gx, gy, tiles, exact, rep)
+    else:
+        R.add('affected', '(%s, %s, %s, 0, InvalidBBOX)' % (gc.name, gc.zbbox(bb), zlit(l)),
+              {'grid': repr(g), 'bbox': bb, 'level': l, 'result': 'GridError'})
+        # oracle: only a rectangle without a point 1/10 px inside may be refused
+        if frac(bb[2]) - frac(bb[0]) >= delta * 2 and frac(bb[3]) - frac(bb[1]) >= delta * 2:
+            ctx.fail('affected-refused', 'rectangle with a non-empty 1/10 px inset refused as invalid', rep)
+
+
+def level_signature(res_list, q, sf, shr, mul):
+    """outcome of every comparison closest_level / get_affected_bbox_and_level make for the requested resolution q"""
+    return tuple((r < q, r <= mul(q, sf)) for r in res_list) + (q > mul(res_list[0], shr),)
+
+
+def closest_ambiguous(gc, q):
+    """does float rounding (of res*stretch_factor, res0*max_shrink_factor) change the outcome of a comparison?
+    q: the double the implementation works with"""
+    g = gc.grid
+    fl = level_signature([float(r) for r in g.resolutions], q, g.stretch_factor, g.max_shrink_factor, lambda a, b: a * b)
+    ex = level_signature(gc.res, frac(q), gc.sf, gc.shr, lambda a, b: a * b)
+    return fl != ex
+
+
+def check_closest(R, gc, q):
+    ctx, g = R.ctx, gc.grid
+    fq = frac(q)
+    resl = [float(x) for x in gc.res]
+    st, lv = call(g.closest_level, q)
+    amb = closest_ambiguous(gc, q)
+    rep = {'grid': gparams(g), 'query': {'fn': 'closest', 'res': q}, 'result': lv}
+    ctx.case(('closest', gc.name, q), True, {'fn': 'closest_level', 'grid': repr(g), 'res': q, 'level': lv} if len(ctx.samples) < 6 else None)
+    ctx.count('closest:' + ('boundary' if amb or any(fq == x or fq * gc.sf == x for x in gc.res) else 'interior'))
+    if st != 'ok':
+        ctx.fail('closest-raises', 'closest_level raised %r' % (lv,), rep)
+        return
+    want = closest_spec(gc, fq)
+    if amb:
+        # the rounding of res*stretch_factor decides: accept the specification's answer for a slightly smaller or larger
+        # stretch factor
+        R.skipped += 1
+        R.tolerance_oracle += 1
+        alts = {closest_spec(gc, fq, gc.sf * (1 + e)) for e in (Fraction(-1, 10 ** 12), 0, Fraction(1, 10 ** 12))}
+        if lv not in alts:
+            ctx.fail('closest_level', 'closest_level(%r) = %r, specification says %r' % (q, lv, sorted(alts)), dict(rep, expected=want))
+        return
+    sq = fq * gc.S
+    R.add('closest', '(%s, %s, %s, %s)' % (gc.name, zlit(sq.numerator), zlit(sq.denominator), zlit(lv)),
+          {'grid': repr(g), 'resolutions': resl, 'stretch': float(gc.sf), 'res': q, 'level': lv})
+    if lv != want:
+        ctx.fail('closest_level', 'closest_level(%r) = %r, specification says %r' % (q, lv, want), dict(rep, expected=want))
+
+
+def check_afflevel(R, gc, bb, size):
+    ctx, g = R.ctx, gc.grid
+    a, b, c, d = bb
+    sx, sy = size
+    st, res = call(g.get_affected_bbox_and_level, (a, b, c, d), (sx, sy))
+    w, h = frac(c) - frac(a), frac(d) - frac(b)
+    fq = min(w / sx, h / sy)
+    q_float = min(abs(a - c) / sx, abs(b - d) / sy)      # what get_resolution computes
+    rep = {'grid': gparams(g), 'query': {'fn': 'afflevel', 'bbox': [a, b, c, d], 'size': [sx, sy]},
+           'result': st if st != 'ok' else res[1]}
+    ctx.case(('afflevel', gc.name, (a, b, c, d), sx, sy), True)
+    if st not in ('ok', 'notiles'):
+        ctx.fail('afflevel-raises', 'get_affected_bbox_and_level raised %r' % (res,), rep)
+        return
+    # oracle (C03 / C16): NoTiles exactly when the rectangle misses the grid or needs more than max_shrink_factor;
+    # otherwise the level of the specification
+    inter = (gc.bbox[0] < frac(c) and gc.bbox[2] > frac(a) and gc.bbox[1] < frac(d) and gc.bbox[3] > frac(b))
+    amb = (frac(q_float) != fq and level_signature(gc.res, frac(q_float), gc.sf, gc.shr, lambda x, y: x * y)
+           != level_signature(gc.res, fq, gc.sf, gc.shr, lambda x, y: x * y)) or closest_ambiguous(gc, q_float)
+    if amb:
+        R.skipped += 1
+        return
+    want = None if (not inter or fq > gc.res[0] * gc.shr) else closest_spec(gc, fq)
+    got = res[1] if st == 'ok' else None
+    if got != want:
+        ctx.fail('affected-level', 'get_affected_bbox_and_level(%r, %r) gives level %r, specification says %r' % (
+            (a, b, c, d), (sx, sy), got, want), dict(rep, expected=want))
+    if not gc.can_scale(a, b, c, d):
+        return
+    obs = 'Some %s' % zlit(res[1]) if st == 'ok' else 'None'
+    R.add('afflevel', '(%s, %s, %d, %d, (%s))' % (gc.name, gc.zbbox((a, b, c, d)), sx, sy, obs),
+          {'grid': repr(g), 'bbox': (a, b, c, d), 'size': (sx, sy), 'result': st if st != 'ok' else res[1]})
+
+
+def check_tile_coord(R, gc, tx, ty, l, lim):
+    """tile_bbox / limit_tile / flip_tile_coord of one coordinate (valid level l)"""
+    ctx, g = R.ctx, gc.grid
+    exact = gc.kind == 'exact'
+    r = gc.res[l]
+    nx, ny = gc.grid_size(l)
+    rep = {'grid': gparams(g), 'query': {'fn': 'coord', 'tile': [tx, ty, l], 'limit': lim}}
+    st, bb = call(lambda: g.tile_bbox((tx, ty, l), limit=lim))
+    ctx.case(('tile_bbox', gc.name, tx, ty, l, lim), True)
+    if st == 'ok':
+        if exact and abs(tx) < 10 ** 6 and abs(ty) < 10 ** 6:
+            if all(gc.can_scale(v) for v in bb):
+                R.add('tile_bbox', '(%s, %s, %s, %s, %s, %s, 0)' % (gc.name, zlit(tx), zlit(ty), zlit(l), blit(lim), gc.zbbox(bb)),
+                      {'grid': repr(g), 'tile': (tx, ty, l), 'limit': lim, 'bbox': bb})
+        else:
+            # realistic: compare with tolerance 1e-9 relative (done in Coq on scaled values)
+            mag = max(abs(v) for v in bb) + float(r) * gc.tw
+            tol = int(frac(mag) * gc.S / 10 ** 9) + 1
+            zs = [int(frac(v) * gc.S) for v in bb]
+            R.add('tile_bbox', '(%s, %s, %s, %s, %s, (%s, %s, %s, %s), %d)' % (
+                gc.name, zlit(tx), zlit(ty), zlit(l), blit(lim), zlit(zs[0]), zlit(zs[1]), zlit(zs[2]), zlit(zs[3]), tol),
+                {'grid': repr(g), 'tile': (tx, ty, l), 'limit': lim, 'bbox': bb})
+        # oracle: neighbouring tiles share edges (bit-exact on the exact stream)
+        if not lim and abs(tx) < 10 ** 6 and abs(ty) < 10 ** 6:
+            st2, bb2 = call(lambda: g.tile_bbox((tx + 1, ty, l)))
+            st3, bb3 = call(lambda: g.tile_bbox((tx, ty + 1, l)))
+            if st2 == 'ok' and st3 == 'ok':
+                tol_f = 0.0 if exact else 1e-9 * (abs(bb[2]) + float(r) * gc.tw)
+                ybad = abs((bb3[3] - bb[1]) if gc.ul else (bb3[1] - bb[3]))
+                if abs(bb2[0] - bb[2]) > tol_f or ybad > (0.0 if exact else 1e-9 * (abs(bb[3]) + float(r) * gc.th)):
+                    ctx.fail('tiles-not-adjacent', 'tile_bbox of neighbours do not share an edge at %r' % ((tx, ty, l),),
+                             dict(rep, bboxes=[bb, bb2, bb3]))
+            # oracle: the centre of the rectangle is mapped back to the tile (tiles do not overlap)
+            cx, cy = (bb[0] + bb[2]) / 2.0, (bb[1] + bb[3]) / 2.0
+            st4, t4 = call(g.tile, cx, cy, l)
+            if st4 != 'ok' or tuple(t4) != (tx, ty, l):
+                ctx.fail('tile-of-interior', 'centre of tile_bbox(%r) is mapped to tile %r' % ((tx, ty, l), t4), rep)
+    else:
+        ctx.fail('tile_bbox-raises', 'tile_bbox raised %r' % (bb,), rep)
+    st, lt = call(g.limit_tile, (tx, ty, l))
+    if st == 'ok':
+        R.add('limit', '(%s, %s, %s, %s, %s)' % (gc.name, zlit(tx), zlit(ty), zlit(l), olit(lt, coord_lit)),
+              {'grid': repr(g), 'tile': (tx, ty, l), 'limit_tile': lt})
+        R.add('gen_limit', '(%s_sizes, %s, %s, %s, %s)' % (gc.name, zlit(tx), zlit(ty), zlit(l), olit(lt, coord_lit)),
+              {'grid': repr(g), 'tile': (tx, ty, l), 'limit_tile': lt})
+        want = (tx, ty, l) if (0 <= tx < nx and 0 <= ty < ny) else None
+        if lt != want:
+            ctx.fail('limit_tile', 'limit_tile(%r) = %r, grid size %r' % ((tx, ty, l), lt, (nx, ny)), rep)
+    else:
+        ctx.fail('limit_tile-raises', 'limit_tile raised %r' % (lt,), rep)
+    st, ft = call(g.flip_tile_coord, (tx, ty, l))
+    if st == 'ok':
+        R.add('flip', '(%s, %s, %s, %s, %s)' % (gc.name, zlit(tx), zlit(ty), zlit(l), coord_lit(ft)),
+              {'grid': repr(g), 'tile': (tx, ty, l), 'flipped': ft})
+        R.add('gen_flip', '(%s_sizes, %s, %s, %s, %s)' % (gc.name, zlit(tx), zlit(ty), zlit(l), coord_lit(ft)),
+              {'grid': repr(g), 'tile': (tx, ty, l), 'flipped': ft})
+        st2, ft2 = call(g.flip_tile_coord, ft)
+        if st2 != 'ok' or tuple(ft2) != (tx, ty, l):
+            ctx.fail('flip-not-involutive', 'flip(flip(%r)) = %r' % ((tx, ty, l), ft2), rep)
+        # oracle: flipping keeps tiles of the grid inside the grid and out-of-grid coordinates outside
+        if st == 'ok' and (call(g.limit_tile, ft)[1] is None) != (lt is None):
+            ctx.fail('flip-validity', 'flip(%r) = %r changes membership in the grid' % ((tx, ty, l), ft), rep)
+        # oracle: when the grid offers the other origin, the flipped coordinate names the same ground rectangle in the
+        # grid numbered from the other corner
+        other = 'll' if gc.ul else 'ul'
+        if not lim and abs(tx) < 10 ** 6 and abs(ty) < 10 ** 6 and call(g.supports_access_with_origin, other) == ('ok', True):
+            mine = gc.tile_rect(tx, ty, l)
+            fr_y = ((gc.bbox[1] + ft[1] * r * gc.th) if gc.ul else (gc.bbox[3] - (ft[1] + 1) * r * gc.th))
+            tol = max(abs(gc.bbox[1]), abs(gc.bbox[3])) / 10 ** 12
+            if ft[0] != tx or abs(fr_y - mine[1]) > tol:
+                ctx.fail('flip-rectangle', 'flip(%r) = %r names another rectangle in the %s-numbered grid' % ((tx, ty, l), ft, other), rep)
+    else:
+        ctx.fail('flip-raises', 'flip_tile_coord raised %r' % (ft,), rep)
+
+
+def check_grid(R, gc):
+    """grid sizes, supports_access_with_origin, origin_tile"""
+    ctx, g, rng = R.ctx, gc.grid, R.ctx.rng
+    nlev = len(gc.res)
+    obs = [tuple(g.grid_sizes[l]) for l in range(nlev)]
+    gc.obs_sizes = obs
+    R.add('sizes', '(%s, %s)' % (gc.name, llit(obs, lambda p: '(%d, %d)' % p)), {'grid': repr(g), 'grid_sizes': obs})
+    ctx.case(('sizes', gc.name, tuple(obs)), True, {'grid': repr(g), 'bbox': g.bbox, 'res': list(g.resolutions)[:6],
+                                                    'tile_size': g.tile_size, 'origin': g.origin, 'grid_sizes': obs[:6]})
+    for l in range(nlev):
+        if obs[l] != gc.grid_size(l):
+            ctx.fail('grid_sizes', 'grid size of level %d is %r, exact value %r' % (l, obs[l], gc.grid_size(l)),
+                     {'grid': gparams(g), 'query': {'fn': 'sizes'}, 'level': l})
+        # oracle: the valid tiles miss less than one pixel of the grid bbox and the last column / row starts inside it
+        r = gc.res[l]
+        for n, ext, t in ((obs[l][0], gc.bbox[2] - gc.bbox[0], gc.tw), (obs[l][1], gc.bbox[3] - gc.bbox[1], gc.th)):
+            if not (n >= 1 and ext - r < n * r * t and (n - 1) * r * t < ext):
+                ctx.fail('grid-cover', 'level %d: %d tiles of %s do not cover the extent %s up to one pixel' % (l, n, float(r * t), float(ext)),
+                         {'grid': gparams(g), 'query': {'fn': 'sizes'}, 'level': l})
+    for org in ('ll', 'ul'):
+        st, sup = call(g.supports_access_with_origin, org)
+        R.add('origin', '(%s, %s, %s, None)' % (gc.name, blit(org == 'ul'), blit(bool(sup))),
+              {'grid': repr(g), 'origin': org, 'supports': sup})
+        ctx.case(('supports', gc.name, org, sup), True)
+        ctx.count('supports_other_origin=%s' % bool(sup) if (org == 'ul') != gc.ul else 'supports_own_origin')
+        # oracle: the own origin is always offered; the other one exactly when every level is aligned (exact stream)
+        if (org == 'ul') == gc.ul and sup is not True:
+            ctx.fail('supports-origin', 'own origin not supported', {'grid': gparams(g), 'query': {'fn': 'supports', 'origin': org}})
+        if (org == 'ul') != gc.ul and gc.kind == 'exact':
+            aligned = all(gc.grid_size(l)[1] * gc.res[l] * gc.th == gc.bbox[3] - gc.bbox[1] for l in range(nlev))
+            if bool(sup) != aligned:
+                ctx.fail('supports-origin', 'supports_access_with_origin(%s) = %r but alignment of all levels is %r' % (org, sup, aligned),
+                         {'grid': gparams(g), 'query': {'fn': 'supports', 'origin': org}})
+        if sup:
+            for l in level_sample(gc, rng, 2):
+                st, ot = call(g.origin_tile, l, org)
+                if st == 'ok':
+                    R.add('origin', '(%s, %s, true, Some (%s, %s))' % (gc.name, blit(org == 'ul'), zlit(l), coord_lit(ot)),
+                          {'grid': repr(g), 'origin': org, 'level': l, 'origin_tile': ot})
+                    # oracle: the origin tile's rectangle starts at the grid corner the origin names
+                    rect = gc.tile_rect(*ot)
+                    corner = rect[3] if org == 'ul' else rect[1]
+                    want = gc.bbox[3] if org == 'ul' else gc.bbox[1]
+                    tol = max(abs(gc.bbox[1]), abs(gc.bbox[3])) / 10 ** 12
+                    if abs(corner - want) > tol or ot[0] != 0:
+                        ctx.fail('origin_tile', 'origin tile %r for origin %s does not start at the grid corner' % (ot, org),
+                                 {'grid': gparams(g), 'query': {'fn': 'origin_tile', 'origin': org, 'level': l}})
+                else:
+                    ctx.fail('origin_tile', 'origin_tile raised %r' % (ot,), {'grid': gparams(g), 'query': {'fn': 'origin_tile', 'origin': org, 'level': l}})
+
+
+# ----------------------------------------------------------------------------- corpus
+
+def replay_corpus(R, grids):
+    """corpus/C03/*.json: {"grid": <gparams>, "queries": [{"fn": "tile"|"affected"|"closest"|"afflevel"|"coord", ...}]}"""
+    ctx = R.ctx
+    if not os.path.isdir(CORPUS):
+        return
+    for k, fn in enumerate(sorted(os.listdir(CORPUS))):
+        if not fn.endswith('.json'):
+            continue
+        try:
+            doc = json.load(open(os.path.join(CORPUS, fn)))
+            gc = GridCase('c%d' % k, grid_from_params(doc['grid']), extra_den=8)
+        except Exception as e:  # noqa
+            ctx.problem('harness', 'corpus file %s cannot be replayed: %r' % (fn, e))
+            continue
+        gc.kind = 'exact' if is_exact_float_grid(gc) else 'real'
+        grids.append(gc)
+        ctx.count('corpus_files')
+        check_grid(R, gc)
+        nlev = len(gc.res)
+        for q in doc.get('queries', []):
+            f = q.get('fn')
+            if f == 'tile' and 0 <= q['level'] < nlev:
+                check_tile(R, gc, float(q['point'][0]), float(q['point'][1]), q['level'])
+            elif f == 'affected' and 0 <= q['level'] < nlev:
+                check_affected(R, gc, tuple(float(v) for v in q['bbox']), q['level'])
+            elif f == 'closest':
+                check_closest(R, gc, float(q['res']))
+            elif f == 'afflevel':
+                check_afflevel(R, gc, tuple(float(v) for v in q['bbox']), tuple(q['size']))
+            elif f == 'coord' and 0 <= q['tile'][2] < nlev:
+                check_tile_coord(R, gc, q['tile'][0], q['tile'][1], q['tile'][2], bool(q.get('limit')))
+
+
 # ----------------------------------------------------------------------------- the run
 
 def run(ctx):
     rng = ctx.rng
-    grids = make_grids(ctx)
-    defs = '\n'.join(g.definition() for g in grids)
-    T = {name: ([], []) for name in ('tile', 'tile_bbox', 'sizes', 'flip', 'limit', 'origin', 'affected', 'closest', 'afflevel')}
-    skipped = {'near_edge': 0}
+    R = Run(ctx)
+    grids = []
+    replay_corpus(R, grids)
+    gen_grids = make_grids(ctx)
+    grids += gen_grids
 
-    def add(name, term, desc):
-        T[name][0].append(term)
-        T[name][1].append(desc)
-
-    for gc in grids:
+    for gc in gen_grids:
         g = gc.grid
         exact = gc.kind == 'exact'
-        tolz = 0 if exact else None
         ctx.count('grid_kind=' + gc.kind)
         ctx.count('origin=' + ('ul' if gc.ul else 'll'))
         nlev = len(gc.res)
-
-        # --- grid sizes
-        obs = [tuple(g.grid_sizes[l]) for l in range(nlev)]
-        add('sizes', '(%s, %s)' % (gc.name, llit(obs, lambda p: '(%d, %d)' % p)), {'grid': repr(g), 'grid_sizes': obs})
-        ctx.case(('sizes', gc.name, tuple(obs)), True, {'grid': repr(g), 'bbox': g.bbox, 'res': list(g.resolutions)[:6],
-                                                        'tile_size': g.tile_size, 'origin': g.origin, 'grid_sizes': obs[:6]})
-        for l in range(nlev):
-            if obs[l] != gc.grid_size(l):
-                ctx.fail('grid_sizes', 'grid size of level %d is %r, exact value %r' % (l, obs[l], gc.grid_size(l)),
-                         {'bbox': g.bbox, 'res': list(g.resolutions), 'tile_size': g.tile_size, 'level': l})
-
-        # --- supports_access_with_origin / origin_tile
-        for org in ('ll', 'ul'):
-            st, sup = call(g.supports_access_with_origin, org)
-            add('origin', '(%s, %s, %s, None)' % (gc.name, blit(org == 'ul'), blit(bool(sup))),
-                {'grid': repr(g), 'origin': org, 'supports': sup})
-            ctx.case(('supports', gc.name, org, sup), True)
-            if sup:
-                for l in level_sample(gc, rng, 2):
-                    st, ot = call(g.origin_tile, l, org)
-                    if st == 'ok':
-                        add('origin', '(%s, %s, true, Some (%s, %s))' % (gc.name, blit(org == 'ul'), zlit(l), coord_lit(ot)),
-                            {'grid': repr(g), 'origin': org, 'level': l, 'origin_tile': ot})
-                        # oracle: the origin tile's rectangle starts at the grid corner the origin names
-                        rect = gc.tile_rect(*ot)
-                        corner = rect[3] if org == 'ul' else rect[1]
-                        want = gc.bbox[3] if org == 'ul' else gc.bbox[1]
-                        tol = max(abs(gc.bbox[1]), abs(gc.bbox[3])) / 10 ** 12
-                        if abs(corner - want) > tol:
-                            ctx.fail('origin_tile', 'origin tile %r for origin %s does not start at the grid corner' % (ot, org),
-                                     {'bbox': g.bbox, 'res': list(g.resolutions), 'tile_size': g.tile_size,
-                                      'grid_origin': g.origin, 'origin': org, 'level': l})
+        check_grid(R, gc)
 
         for l in level_sample(gc, rng, ctx.n(3, 5)):
             r = gc.res[l]
             nx, ny = gc.grid_size(l)
             xs = edge_values(gc, rng, l, 0)
             ys = edge_values(gc, rng, l, 1)
+            xs_u = edge_values(gc, rng, l, 0, ulp=True)
+            ys_u = edge_values(gc, rng, l, 1, ulp=True)
             # --- tile()
-            for _ in range(ctx.n(10, 24)):
-                px, py = rng.choice(xs), rng.choice(ys)
-                st, t = call(g.tile, px, py, l)
-                fx, fy = gc.tile_pos(px, py, l)
-                near = near_integer(fx) or near_integer(fy)
-                ctx.case(('tile', gc.name, px, py, l), True,
-                         {'fn': 'tile', 'grid': repr(g), 'point': (px, py), 'level': l, 'result': t})
-                ctx.count('tile:' + ('on_edge' if (fx.denominator == 1 or fy.denominator == 1) else 'near_edge' if near else 'away'))
-                if st != 'ok':
-                    ctx.fail('tile-raises', 'tile() raised %r' % (t,), {'point': (px, py), 'level': l, 'grid': repr(g)})
-                    continue
-                if not exact and near:
-                    skipped['near_edge'] += 1
-                    continue
-                add('tile', '(%s, %s, %s, %s, (%s, %s))' % (gc.name, zlit(gc.z(px)), zlit(gc.z(py)), zlit(l), zlit(t[0]), zlit(t[1])),
-                    {'grid': repr(g), 'bbox': g.bbox, 'res': float(r), 'point': (px, py), 'level': l, 'tile': t})
-                # oracle: the tile found for a point contains that point (half-open)
-                if not (t[0] <= fx < t[0] + 1 and t[1] <= fy < t[1] + 1):
-                    ctx.fail('point-not-in-own-tile', 'tile(%r, %r, %d) = %r does not contain the point' % (px, py, l, t),
-                             {'bbox': g.bbox, 'res': list(g.resolutions), 'tile_size': g.tile_size, 'origin': g.origin,
-                              'point': (px, py), 'level': l, 'tile': t})
+            for k in range(ctx.n(12, 28)):
+                if k % 4 == 3:
+                    px, py = rng.choice(xs_u), rng.choice(ys_u)
+                else:
+                    px, py = rng.choice(xs), rng.choice(ys)
+                check_tile(R, gc, px, py, l)
             # --- tile_bbox, flip, limit
             for _ in range(ctx.n(6, 14)):
                 tx = rng.choice([0, 1, nx - 1, nx, -1, rng.randrange(-2, nx + 2), 10 ** 12])
                 ty = rng.choice([0, 1, ny - 1, ny, -1, rng.randrange(-2, ny + 2), -10 ** 9])
-                lim = rng.random() < 0.3
-                st, bb = call(lambda: g.tile_bbox((tx, ty, l), limit=lim))
-                ctx.case(('tile_bbox', gc.name, tx, ty, l, lim), True)
-                if st == 'ok':
-                    if exact and abs(tx) < 10 ** 6 and abs(ty) < 10 ** 6:
-                        if all(gc.can_scale(v) for v in bb):
-                            add('tile_bbox', '(%s, %s, %s, %s, %s, %s, 0)' % (gc.name, zlit(tx), zlit(ty), zlit(l), blit(lim), gc.zbbox(bb)),
-                                {'grid': repr(g), 'tile': (tx, ty, l), 'limit': lim, 'bbox': bb})
-                    else:
-                        # realistic: compare with tolerance 1e-9 relative (done in Coq on scaled values)
-                        mag = max(abs(v) for v in bb) + float(r) * gc.tw
-                        tol = int(frac(mag) * gc.S / 10 ** 9) + 1
-                        zs = [int(frac(v) * gc.S) for v in bb]
-                        add('tile_bbox', '(%s, %s, %s, %s, %s, (%s, %s, %s, %s), %d)' % (
-                            gc.name, zlit(tx), zlit(ty), zlit(l), blit(lim), zlit(zs[0]), zlit(zs[1]), zlit(zs[2]), zlit(zs[3]), tol),
-                            {'grid': repr(g), 'tile': (tx, ty, l), 'limit': lim, 'bbox': bb})
-                    # oracle: neighbouring tiles share edges (bit-exact on the exact stream)
-                    if not lim and abs(tx) < 10 ** 6 and abs(ty) < 10 ** 6:
-                        st2, bb2 = call(lambda: g.tile_bbox((tx + 1, ty, l)))
-                        st3, bb3 = call(lambda: g.tile_bbox((tx, ty + 1, l)))
-                        if st2 == 'ok' and st3 == 'ok':
-                            tol_f = 0.0 if exact else 1e-9 * (abs(bb[2]) + float(r) * gc.tw)
-                            ybad = abs((bb3[3] - bb[1]) if gc.ul else (bb3[1] - bb[3]))
-                            if abs(bb2[0] - bb[2]) > tol_f or ybad > (0.0 if exact else 1e-9 * (abs(bb[3]) + float(r) * gc.th)):
-                                ctx.fail('tiles-not-adjacent', 'tile_bbox of neighbours do not share an edge at %r' % ((tx, ty, l),),
-                                         {'bbox': g.bbox, 'res': list(g.resolutions), 'tile_size': g.tile_size, 'origin': g.origin,
-                                          'tile': (tx, ty, l), 'bboxes': [bb, bb2, bb3]})
-                st, lt = call(g.limit_tile, (tx, ty, l))
-                if st == 'ok':
-                    add('limit', '(%s, %s, %s, %s, %s)' % (gc.name, zlit(tx), zlit(ty), zlit(l), olit(lt, coord_lit)),
-                        {'grid': repr(g), 'tile': (tx, ty, l), 'limit_tile': lt})
-                    want = (tx, ty, l) if (0 <= tx < nx and 0 <= ty < ny) else None
-                    if lt != want:
-                        ctx.fail('limit_tile', 'limit_tile(%r) = %r, grid size %r' % ((tx, ty, l), lt, (nx, ny)),
-                                 {'bbox': g.bbox, 'res': list(g.resolutions), 'tile_size': g.tile_size, 'tile': (tx, ty, l)})
-                st, ft = call(g.flip_tile_coord, (tx, ty, l))
-                if st == 'ok':
-                    add('flip', '(%s, %s, %s, %s, %s)' % (gc.name, zlit(tx), zlit(ty), zlit(l), coord_lit(ft)),
-                        {'grid': repr(g), 'tile': (tx, ty, l), 'flipped': ft})
-                    st2, ft2 = call(g.flip_tile_coord, ft)
-                    if st2 != 'ok' or tuple(ft2) != (tx, ty, l):
-                        ctx.fail('flip-not-involutive', 'flip(flip(%r)) = %r' % ((tx, ty, l), ft2), {'grid': repr(g), 'tile': (tx, ty, l)})
+                check_tile_coord(R, gc, tx, ty, l, rng.random() < 0.3)
             for lv in (-1, nlev, nlev + 3):
                 st, lt = call(g.limit_tile, (0, 0, lv))
                 if st == 'ok':
-                    add('limit', '(%s, 0, 0, %s, %s)' % (gc.name, zlit(lv), olit(lt, coord_lit)), {'grid': repr(g), 'tile': (0, 0, lv), 'limit_tile': lt})
+                    R.add('limit', '(%s, 0, 0, %s, %s)' % (gc.name, zlit(lv), olit(lt, coord_lit)), {'grid': repr(g), 'tile': (0, 0, lv), 'limit_tile': lt})
+                    R.add('gen_limit', '(%s_sizes, 0, 0, %s, %s)' % (gc.name, zlit(lv), olit(lt, coord_lit)), {'grid': repr(g), 'tile': (0, 0, lv), 'limit_tile': lt})
                     if lt is not None:
-                        ctx.fail('limit_tile', 'limit_tile accepts level %d of %d' % (lv, nlev), {'grid': repr(g), 'level': lv})
+                        ctx.fail('limit_tile', 'limit_tile accepts level %d of %d' % (lv, nlev), {'grid': gparams(g), 'query': {'fn': 'limit', 'level': lv}})
 
             # --- affected tiles
-            for _ in range(ctx.n(8, 20)):
+            for k in range(ctx.n(9, 22)):
                 kind = rng.choice(['edges', 'edges', 'random', 'tiny', 'outside'])
+                px, py = (xs_u, ys_u) if k % 5 == 4 else (xs, ys)
                 if kind == 'tiny':
-                    a = rng.choice(xs)
-                    b = rng.choice(ys)
+                    a = rng.choice(px)
+                    b = rng.choice(py)
                     dd = rng.choice([0.0, float(r) / 8.0, float(r) / 4.0, float(r)])
                     bb = (a, b, a + dd, b + dd)
                 else:
-                    a, c = sorted([rng.choice(xs), rng.choice(xs)])
-                    b, d = sorted([rng.choice(ys), rng.choice(ys)])
+                    a, c = sorted([rng.choice(px), rng.choice(px)])
+                    b, d = sorted([rng.choice(py), rng.choice(py)])
                     bb = (a, b, c, d)
-                if not gc.can_scale(*bb):
-                    continue
                 # keep the tile list small
                 if (bb[2] - bb[0]) / (float(r) * gc.tw) > 12 or (bb[3] - bb[1]) / (float(r) * gc.th) > 12:
                     continue
-                st, res = call(g.get_affected_level_tiles, bb, l)
-                delta = r / 10
-                pos = [gc.tile_pos(frac(bb[0]) + delta, frac(bb[1]) + delta, l), gc.tile_pos(frac(bb[2]) - delta, frac(bb[3]) - delta, l)]
-                near = any(near_integer(p) for pp in pos for p in pp)
-                ctx.case(('affected', gc.name, bb, l), True,
-                         {'fn': 'get_affected_level_tiles', 'grid': repr(g), 'bbox': bb, 'level': l,
-                          'result': (res[0], res[1], list(res[2])[:6]) if st == 'ok' else st} if len(ctx.samples) < 5 else None)
-                ctx.count('affected:' + kind)
-                if not exact and near:
-                    skipped['near_edge'] += 1
-                    continue
-                if st == 'ok':
-                    abbox, (gx, gy), tiles = res
-                    tiles = list(tiles)
-                    if exact and not gc.can_scale(*abbox):
-                        continue
-                    if exact:
-                        zb, tol = gc.zbbox(abbox), 0
-                    else:
-                        zs = [int(frac(v) * gc.S) for v in abbox]
-                        zb = '(%s, %s, %s, %s)' % tuple(zlit(v) for v in zs)
-                        tol = int(frac(max(abs(v) for v in abbox) + float(r) * gc.tw) * gc.S / 10 ** 9) + 1
-                    obs_t = '(Affected %s %d %d %s)' % (zb, gx, gy, llit(tiles, lambda c: olit(c, coord_lit)))
-                    add('affected', '(%s, %s, %s, %d, %s)' % (gc.name, gc.zbbox(bb), zlit(l), tol, obs_t),
-                        {'grid': repr(g), 'bbox': bb, 'level': l, 'affected_bbox': abbox, 'grid_size': (gx, gy), 'tiles': tiles})
-                    affected_oracle(ctx, gc, bb, l, abbox, gx, gy, tiles, exact)
-                elif st == 'griderror':
-                    add('affected', '(%s, %s, %s, 0, InvalidBBOX)' % (gc.name, gc.zbbox(bb), zlit(l)),
-                        {'grid': repr(g), 'bbox': bb, 'level': l, 'result': 'GridError'})
-                    # oracle: only an (almost) empty rectangle may be refused
-                    if (frac(bb[2]) - frac(bb[0]) > r * gc.tw + delta * 2) and (frac(bb[3]) - frac(bb[1]) > r * gc.th + delta * 2):
-                        ctx.fail('affected-refused', 'non-degenerate rectangle refused as invalid', {'grid': repr(g), 'bbox': bb, 'level': l})
-                else:
-                    ctx.fail('affected-raises', 'get_affected_level_tiles raised %r' % (res,), {'grid': repr(g), 'bbox': bb, 'level': l})
+                check_affected(R, gc, bb, l, kind)
 
         # --- closest_level and get_affected_bbox_and_level
         resl = [float(x) for x in gc.res]
         cand = []
+        sf = float(gc.sf)
         for lr in resl:
-            sf = float(gc.sf)
             for m in (1.0, 1 / sf, sf, 1.0 + 2 ** -10, 1.0 - 2 ** -10, 1 / sf + 2 ** -10, 1 / sf - 2 ** -10, 0.5, 0.75, 2.0, 1.5):
                 cand.append(lr * m)
+            cand += [math.nextafter(lr, math.inf), math.nextafter(lr, 0.0), math.nextafter(lr / sf, math.inf), math.nextafter(lr / sf, 0.0)]
         cand += [resl[0] * 5, resl[-1] / 7, resl[0] * float(gc.shr), resl[0] * float(gc.shr) * 1.001]
         rng.shuffle(cand)
-        for q in cand[:ctx.n(14, 40)]:
+        for q in cand[:ctx.n(16, 44)]:
             if q <= 0:
                 continue
-            q = math.floor(q * 2 ** 12) / 2.0 ** 12 if exact else q
+            if exact and rng.random() < 0.7:
+                q = math.floor(q * 2 ** 12) / 2.0 ** 12
             if q <= 0:
                 continue
-            fq = frac(q)
-            st, lv = call(g.closest_level, q)
-            amb = closest_ambiguous(gc, fq, exact)
-            ctx.case(('closest', gc.name, q), True, {'fn': 'closest_level', 'grid': repr(g), 'res': q, 'level': lv} if len(ctx.samples) < 6 else None)
-            ctx.count('closest:' + ('boundary' if amb or any(fq == x or fq * gc.sf == x for x in gc.res) else 'interior'))
-            if st != 'ok':
-                ctx.fail('closest-raises', 'closest_level raised %r' % (lv,), {'grid': repr(g), 'res': q})
-                continue
-            if amb:
-                skipped['near_edge'] += 1
-                continue
-            sq = fq * gc.S
-            add('closest', '(%s, %s, %s, %s)' % (gc.name, zlit(sq.numerator), zlit(sq.denominator), zlit(lv)),
-                {'grid': repr(g), 'resolutions': resl, 'stretch': float(gc.sf), 'res': q, 'level': lv})
-            want = closest_spec(gc, fq)
-            if lv != want:
-                ctx.fail('closest_level', 'closest_level(%r) = %r, specification says %r' % (q, lv, want),
-                         {'resolutions': resl, 'stretch_factor': g.stretch_factor, 'res': q, 'level': lv, 'expected': want})
+            check_closest(R, gc, q)
         for _ in range(ctx.n(6, 16)):
             l = rng.randrange(nlev)
             xs = edge_values(gc, rng, l, 0)
@@ -385,27 +641,34 @@ def run(ctx):
             b, d = sorted([rng.choice(ys), rng.choice(ys)])
             if a == c or b == d:
                 continue
-            sx, sy = rng.choice([(256, 256), (512, 256), (64, 64), (128, 1024), (300, 200), (1, 1)])
-            st, res = call(g.get_affected_bbox_and_level, (a, b, c, d), (sx, sy))
-            w, h = frac(c) - frac(a), frac(d) - frac(b)
-            fq = min(w / sx, h / sy)
-            exact_q = frac(float(w) / sx) == w / sx and frac(float(h) / sy) == h / sy
-            amb = closest_ambiguous(gc, fq, exact and exact_q) or near_rel(fq, gc.res[0] * gc.shr, exact and exact_q)
-            ctx.case(('afflevel', gc.name, (a, b, c, d), sx, sy), True)
-            if amb:
-                skipped['near_edge'] += 1
-                continue
-            if st == 'ok':
-                obs = 'Some %s' % zlit(res[1])
-            elif st == 'notiles':
-                obs = 'None'
-            else:
-                ctx.fail('afflevel-raises', 'get_affected_bbox_and_level raised %r' % (res,), {'grid': repr(g), 'bbox': (a, b, c, d), 'size': (sx, sy)})
-                continue
-            add('afflevel', '(%s, %s, %d, %d, (%s))' % (gc.name, gc.zbbox((a, b, c, d)), sx, sy, obs),
-                {'grid': repr(g), 'bbox': (a, b, c, d), 'size': (sx, sy), 'result': st if st != 'ok' else res[1]})
+            size = rng.choice([(256, 256), (512, 256), (64, 64), (128, 1024), (300, 200), (1, 1)])
+            u = rng.random()
+            if u < 0.2:
+                # a request of (about) level resolution
+                size = (max(1, int(round((c - a) / resl[l]))), max(1, int(round((d - b) / resl[l]))))
+            elif u < 0.5:
+                # a request whose resolution is exactly a level resolution, level resolution / stretch factor or the
+                # max_shrink_factor limit (the boundaries of every comparison of the level choice)
+                size = rng.choice([(1, 1), (2, 4), (8, 8), (16, 4), (256, 256)])
+                t = rng.choice([resl[l], resl[l] / float(gc.sf), resl[0] * float(gc.shr), resl[0] * float(gc.shr),
+                                math.nextafter(resl[0] * float(gc.shr), math.inf)])
+                a = rng.choice([a, float(gc.bbox[0]), float(gc.bbox[2]) - t * size[0] / 2])
+                b = rng.choice([b, float(gc.bbox[1]), float(gc.bbox[3]) - t * size[1] / 2])
+                c = a + t * size[0]
+                d = b + t * size[1] * rng.choice([1, 1, 2])
+                if not (c > a and d > b):
+                    continue
+            check_afflevel(R, gc, (a, b, c, d), size)
 
-    ctx.distribution['skipped_float_rounding_sensitive'] = skipped['near_edge']
+    # --- generated _create_tile_list against the Python generator, on arbitrary lists
+    gen_list_cases(R)
+
+    ctx.distribution['skipped_float_rounding_sensitive'] = R.skipped
+    ctx.distribution['checked_by_tolerance_oracle_only'] = R.tolerance_oracle
+    defs = '\n'.join(g.definition() for g in grids)
+    defs += '\n' + '\n'.join('Definition %s_sizes : list (Z * Z) := %s.' % (g.name, llit(g.obs_sizes, lambda p: '(%d, %d)' % p))
+                             for g in grids)
+    T = R.T
     I = 'Grid'
     ctx.corr_check('tile', I, 'grid * Z * Z * Z * (Z * Z)', T['tile'][0],
                    "fun c => let '(g, px, py, l, (tx, ty)) := c in let '(mx, my) := tile g px py l in (mx =? tx) && (my =? ty)",
@@ -436,32 +699,62 @@ def run(ctx):
                    "fun c => let '(g, b, sx, sy, obs) := c in "
                    "match affected_level g b sx sy, obs with Some a, Some b => a =? b | None, None => true | _, _ => false end",
                    lambda i: T['afflevel'][1][i], defs=defs)
+    # the definitions generated from the source by translator/specs/grid_int.py against the Python functions; the grid
+    # sizes handed to them are the ones the implementation computed (self.grid_sizes), not the model's
+    IG = 'Grid Gen_grid_int'
+    gs = "(fun z => nth (Z.to_nat z) sizes (0, 0))"
+    ctx.corr_check('gen_flip_tile_coord', IG, 'list (Z * Z) * Z * Z * Z * (Z * Z * Z)', T['gen_flip'][0],
+                   "fun c => let '(sizes, x, y, l, obs) := c in "
+                   "coord_eqb (gen_flip_tile_coord (Z.of_nat (List.length sizes)) %s x y l) obs" % gs,
+                   lambda i: T['gen_flip'][1][i], defs=defs)
+    ctx.corr_check('gen_limit_tile', IG, 'list (Z * Z) * Z * Z * Z * option (Z * Z * Z)', T['gen_limit'][0],
+                   "fun c => let '(sizes, x, y, l, obs) := c in "
+                   "ocoord_eqb (gen_limit_tile (Z.of_nat (List.length sizes)) %s x y l) obs" % gs,
+                   lambda i: T['gen_limit'][1][i], defs=defs)
+    ctx.corr_check('gen_create_tile_list', IG, 'list Z * list Z * Z * (Z * Z) * list (option (Z * Z * Z))', T['gen_list'][0],
+                   "fun c => let '(xs, ys, l, gs, obs) := c in ocoords_eqb (gen_create_tile_list xs ys l gs) obs",
+                   lambda i: T['gen_list'][1][i])
 
 
-def near_rel(a, b, exact):
-    """are the rationals a and b so close that float rounding may decide the comparison either way?"""
-    if exact:
-        return False
-    return abs(a - b) <= Fraction(1, 10 ** 11) * max(abs(a), abs(b))
+def gen_list_cases(R):
+    ctx, rng = R.ctx, R.ctx.rng
+    try:
+        from mapproxy.grid import _create_tile_list
+    except Exception as e:  # noqa
+        ctx.problem('harness', '_create_tile_list cannot be imported: %r' % (e,))
+        return
+    for _ in range(ctx.n(60, 400)):
+        nx, ny = rng.choice([(1, 1), (2, 3), (5, 4), (rng.randrange(1, 9), rng.randrange(1, 9))])
+        if rng.random() < 0.7:
+            a = rng.randrange(-2, nx + 1)
+            b = rng.randrange(-2, ny + 1)
+            xs = list(range(a, a + rng.randrange(0, 5)))
+            ys = list(range(b, b + rng.randrange(0, 5)))
+            if rng.random() < 0.5:
+                ys.reverse()
+        else:
+            xs = [rng.randrange(-3, nx + 3) for _ in range(rng.randrange(0, 5))]
+            ys = [rng.randrange(-3, ny + 3) for _ in range(rng.randrange(0, 5))]
+        lv = rng.randrange(0, 20)
+        st, out = call(lambda: [tuple(t) if t is not None else None for t in _create_tile_list(xs, ys, lv, (nx, ny))])
+        ctx.case(('create_tile_list', tuple(xs), tuple(ys), lv, nx, ny), True)
+        if st != 'ok':
+            ctx.fail('create_tile_list-raises', '_create_tile_list raised %r' % (out,), {'xs': xs, 'ys': ys, 'level': lv, 'grid_size': [nx, ny]})
+            continue
+        R.add('gen_list', '(%s, %s, %d, (%d, %d), %s)' % (llit(xs), llit(ys), lv, nx, ny, llit(out, lambda c: olit(c, coord_lit))),
+              {'xs': xs, 'ys': ys, 'level': lv, 'grid_size': (nx, ny), 'result': out})
+        want = [((x, y, lv) if (0 <= x < nx and 0 <= y < ny) else None) for y in ys for x in xs]
+        if out != want:
+            ctx.fail('create_tile_list', '_create_tile_list is not the row-major list with None outside the grid',
+                     {'xs': xs, 'ys': ys, 'level': lv, 'grid_size': [nx, ny], 'result': out})
 
 
-def closest_ambiguous(gc, fq, exact):
-    if exact and all((fq * gc.sf).denominator <= 2 ** 40 for _ in (0,)):
-        # all operands are small dyadics: res*stretch_factor is computed exactly
-        fl = frac(float(fq * gc.sf))
-        if fl == fq * gc.sf:
-            return False
-    for r in gc.res:
-        if near_rel(r, fq, False) or near_rel(r, fq * gc.sf, False):
-            return True
-    return False
-
-
-def closest_spec(gc, fq):
+def closest_spec(gc, fq, sf=None):
     """The level choice of the property statement: the level closest above the requested resolution within the
     stretch factor, otherwise the coarsest finer level, the finest level if none is fine enough."""
     res = gc.res
-    within = [i for i, r in enumerate(res) if fq <= r <= fq * gc.sf]
+    sf = gc.sf if sf is None else sf
+    within = [i for i, r in enumerate(res) if fq <= r <= fq * sf]
     if within:
         return within[-1]
     finer = [i for i, r in enumerate(res) if r < fq]
@@ -470,32 +763,20 @@ def closest_spec(gc, fq):
     return len(res) - 1
 
 
-def affected_oracle(ctx, gc, bb, l, abbox, gx, gy, tiles, exact):
+def affected_oracle(ctx, gc, bb, l, abbox, gx, gy, tiles, exact, rep):
     """C03: the set of tiles reported for a rectangle covers every part of it inside the grid, is listed row by
     row from the top, contains no tile that merely touches the rectangle."""
-    g = gc.grid
     r = gc.res[l]
     delta = r / 10
-    nx, ny = gc.grid_size(l)
-    rep = {'bbox': g.bbox, 'res': list(g.resolutions), 'tile_size': g.tile_size, 'origin': g.origin,
-           'query': bb, 'level': l, 'tiles': tiles[:40], 'grid': (gx, gy)}
     if len(tiles) != gx * gy:
         ctx.fail('affected-count', 'tile list has %d entries for a %dx%d block' % (len(tiles), gx, gy), rep)
         return
     # reconstruct the block from the exact geometry
     fx0, fy0 = gc.tile_pos(frac(bb[0]) + delta, frac(bb[1]) + delta, l)
     fx1, fy1 = gc.tile_pos(frac(bb[2]) - delta, frac(bb[3]) - delta, l)
-    cx0, cx1 = math.floor(fx0), math.floor(fx1)
-    ry_top = math.floor(fy1) if not gc.ul else math.floor(fy1)
-    ry_bot = math.floor(fy0)
     # rows from the top: ll grids descending from the row of the upper edge, ul grids ascending
-    rows = list(range(ry_top, ry_bot - 1, -1)) if not gc.ul else list(range(ry_top, ry_bot + 1))
-    cols = list(range(cx0, cx1 + 1))
-    expected = []
-    for y in rows:
-        for x in cols:
-            expected.append((x, y, l) if (0 <= x < nx and 0 <= y < ny) else None)
-    if [tuple(t) if t is not None else None for t in tiles] != expected:
+    cols, rows, expected = block_for(gc, l, math.floor(fx0), math.floor(fy0), math.floor(fx1), math.floor(fy1))
+    if tiles != expected or (gx, gy) != (len(cols), len(rows)):
         ctx.fail('affected-tiles', 'tiles for rectangle differ from the exact cover (row-major from the top, valid tiles only)',
                  dict(rep, expected=expected[:40]))
         return
